@@ -442,10 +442,17 @@ def stale_class(spec, kind, param=0):
             if not k.startswith("grid:") or k == "grid:delayed":
                 return False
             z = _grid(k, s, v, adv, param)[0]
-            original = {n._name for n in z.expr.walk()}
+            expr = z.expr
+            if kind.startswith("joint:"):
+                # both consumers are simplified as ONE expression by dask.compute(z1, z2): trace that one
+                from dask.base import collections_to_expr
+
+                z1 = _plain(kind[len("joint:"):].split("+")[0], s, v)[0]
+                expr = collections_to_expr([z1, z])
+            original = {n._name for n in expr.walk()}
             T.clear_caches()
             with T.trace_objects() as recs:
-                z.expr.simplify()
+                expr.simplify()
         return any(r["before"]._name not in original and r["after"].chunks != r["before"].chunks for r in recs)
     except Exception:  # noqa: BLE001
         return False
@@ -484,9 +491,10 @@ def judge(ctx, case, outs, earlier=(), fresh=True):
     twin = dict(base, events=[[ev[0], ev[1], 1] + list(ev[3:])])
     # the listed finding (wrong under optimization without any history, a pushdown into a node created during the pass):
     # decided in this process, no interpreter needed
-    if ev[1] and ev[0].startswith(("grid:", "joint:")) and _fails_at_last(run_case(twin)) and stale_class(case["S"], ev[0], ev[3] if len(ev) > 3 else 0):
+    # (compute() under optimize-graph=False still simplifies through dask.base.compute, so the class does not depend on the flag)
+    if ev[0].startswith(("grid:", "joint:")) and _fails_at_last(run_case(twin)) and stale_class(case["S"], ev[0], ev[3] if len(ev) > 3 else 0):
         o = run_case(twin)[-1]
-        return STALE, twin, f"{ev[0]} over S (optimize-graph=True), no history: {o.get('detail')}"
+        return STALE, twin, f"{ev[0]} over S (optimize-graph={bool(ev[1])}), no history: {o.get('detail')}"
     cands = [twin, dict(base, events=evs[: k + 1], prelude=case.get("prelude") or [])]
     cands += [dict(base, events=[evs[j], ev]) for j in range(k)] if k > 1 else []
     res = run_fresh(cands) if fresh else [run_case(c) for c in cands]
@@ -499,7 +507,7 @@ def judge(ctx, case, outs, earlier=(), fresh=True):
         alt = dict(base, events=[[ev[0], not ev[1], 1] + list(ev[3:])])
         ralt = run_fresh([alt])[0] if fresh else run_case(alt)
         both = _fails_at_last(ralt)
-        if ev[1] and not both and stale_class(case["S"], ev[0], ev[3] if len(ev) > 3 else 0):
+        if stale_class(case["S"], ev[0], ev[3] if len(ev) > 3 else 0):
             sig = STALE
         else:
             sig = f"consumers:no-history:{'any-option' if both else ('optimized' if ev[1] else 'unoptimized')}:{ev[0]}:{o['how']}"
